@@ -834,7 +834,10 @@ def model_validation(repo, tier):
 
 from contracts import c09_routing  # noqa: E402
 
-EXTRA = [policy, native_collisions, native_collisions_known_temp_name, c09_routing.routing_conformance, c09_routing.routing_lemma, model_validation]
+from contracts import c09_counts  # noqa: E402
+
+EXTRA = [policy, native_collisions, native_collisions_known_temp_name, c09_routing.routing_conformance, c09_routing.routing_lemma, model_validation,
+         c09_counts.count_obligations]
 TRUSTED = ["a normalised absolute path equal to abspath(base) or prefixed by abspath(base)+sep lies inside base (no symlinks are created by the reader)",
            "os.path.abspath returns a normalised absolute path",
            "a normalised absolute path that ends in a separator is the file-system root: every normalised absolute path with that prefix lies inside it",
